@@ -21,7 +21,7 @@ package middleware
 
 // Closing the gzip wrapper flushes to the underlying writer; it enters no handler.
 //@ func (*gzipResponseWriter).Close [C20]
-//@   modifies fields(gzw)
+//@   modifies fields(gzw), statusWrites, lastStatus
 
 //@ func newGzipResponseWriter
 //@   modifies nothing
